@@ -3,7 +3,8 @@
 
   Property theorems only (helper lemmas: SnowProofs/Lemmas/{SnowingLoop,SimpsonArr,Snowing}.lean).
   Models: SnowModel/Snowing0D.lean, Snowing1D.lean instantiated at ℝ (IEEE rounding is not
-  modelled).  2D: see Props of the 2D work package; here 2D is covered by predicates on real runs.
+  modelled).  2D: `SnowModel/Snowing2D.lean` (work package G), theorems `*_2D` in the second half of this file
+  through the loop bridge `SnowProofs/Lemmas/Snowing2DLoop.lean` / `Snowing2DRun.lean`.
 -/
 import SnowProofs.Lemmas.Snowing
 import SnowProofs.Lemmas.Snowing2DRun
